@@ -33,7 +33,7 @@ MECHANISMS = ["jaxley.modules.network:Network._step_synapse_state", "jaxley.modu
               "jaxley.connect:connect", "jaxley.utils.cell_utils:convert_point_process_to_distributed"]
 MECHANISMS_REQUIRED = MECHANISMS
 REQUIRED = {"quick": {"ref_sim": 40, "charge_attribution": 10, "order_indep": 10, "zero_g": 10, "edge_select": 10},
-            "thorough": {"ref_sim": 200, "charge_attribution": 50, "order_indep": 50, "zero_g": 50, "edge_select": 50}}
+            "thorough": {"ref_sim": 428, "charge_attribution": 80, "order_indep": 80, "zero_g": 80, "edge_select": 320}}
 WALL_BUDGET = {"quick": 1500, "thorough": 4 * 3600}
 
 
